@@ -34,10 +34,11 @@ const (
 	kHostIgnoreLookup
 	kInfix2Ignore
 	kHostInfixIgnore
+	kHostFork405
 	nKinds
 )
 
-var kindNames = [...]string{"direct(2 params)", "ignored-slash", "redirect", "404", "405", "OPTIONS", "Lookup+Close", "Lookup+Clone", "handler-CloneWith", "handler-Clone-stash", "hostname-direct", "infix-catch-all", "iterators-left-early", "handler-Lookup-inside", "ignored-slash-Clone-stash", "static-hostname-ignored-slash+Lookup-inside", "two-infix-catch-alls-ignored-slash", "hostname-infix-catch-all-ignored-slash"}
+var kindNames = [...]string{"direct(2 params)", "ignored-slash", "redirect", "404", "405", "OPTIONS", "Lookup+Close", "Lookup+Clone", "handler-CloneWith", "handler-Clone-stash", "hostname-direct", "infix-catch-all", "iterators-left-early", "handler-Lookup-inside", "ignored-slash-Clone-stash", "static-hostname-ignored-slash+Lookup-inside", "two-infix-catch-alls-ignored-slash", "hostname-infix-catch-all-ignored-slash", "405-after-backtracking-in-the-hostname-tree"}
 
 // world is one router plus the bookkeeping of one execution.
 type world struct {
@@ -276,6 +277,10 @@ func newWorld(withHost bool) *world {
 		w.respond(c)
 	}))
 	if withHost {
+		// another method's hostname routes fork after a hostname parameter: the lazy lookup made for the
+		// Allow header backtracks inside the hostname tree
+		must(f.Handle("POST", "{h}.api.host3/x/{a}", func(c fox.Context) { w.bad("POST handler must not run") }))
+		must(f.Handle("POST", "{h}.{w}.host3/x/{a}", func(c fox.Context) { w.bad("POST handler must not run") }))
 		// ... and on the sub-context of the hostname lookup
 		must(f.Handle("GET", "{h}.host2/f/*{w}/meta/", func(c fox.Context) {
 			w.observe(c, "{h}.host2/f/*{w}/meta/", fox.RouteHandler, []string{"h", "w"}, true)
@@ -360,6 +365,8 @@ func (w *world) issue(kind int) {
 		w.f.ServeHTTP(rw, w.req("GET", "", "/ic/"+tok+"a"))
 	case kHostIgnoreLookup:
 		w.f.ServeHTTP(rw, w.req("GET", "static.host", "/hi/"+tok+"a"))
+	case kHostFork405:
+		w.f.ServeHTTP(rw, w.req("GET", tok+"a.apx.host3", "/x/"+tok+"b"))
 	case kInfix2Ignore:
 		w.f.ServeHTTP(rw, w.req("GET", "", "/d/"+tok+"a/m/"+tok+"b/z"))
 	case kHostInfixIgnore:
@@ -512,7 +519,7 @@ func sequences(maxLen int, kinds []int, withReplace bool) []Seq {
 				}
 				hasHostKind := false
 				for _, k := range cur {
-					if k == kHostDirect || k == kHostIgnoreLookup || k == kHostInfixIgnore {
+					if k == kHostDirect || k == kHostIgnoreLookup || k == kHostInfixIgnore || k == kHostFork405 {
 						hasHostKind = true
 					}
 				}
@@ -643,7 +650,7 @@ func init() {
 	mc.Register(&mc.Check{
 		ID:    "C12",
 		Level: "model_checking",
-		Rule: "every sequence up to a length of requests from an 18-kind alphabet (direct, ignored slash, redirect, 404, 405, OPTIONS, manual Lookup(+Clone), CloneWith, Clone, hostname, infix catch-all, every iterator consumed fully and left at its first element, a handler doing a Lookup for another request, a slash-adjusted match whose handler keeps a Clone, a static-hostname slash-adjusted match whose handler looks up another slash-adjusted request), with an optional tree replacement before each request, x EVERY answer of the context pool at every Pool.Get (any of the pooled contexts or a fresh one: data choice points of the controlled scheduler); every request carries a unique token in every observable field and every Context getter is checked inside every handler; stashed clones are re-read after every later request; " +
+		Rule: "every sequence up to a length of requests from a 19-kind alphabet (direct, ignored slash, redirect, 404, 405, OPTIONS, manual Lookup(+Clone), CloneWith, Clone, hostname, infix catch-all, every iterator consumed fully and left at its first element, a handler doing a Lookup for another request, a slash-adjusted match whose handler keeps a Clone, a static-hostname slash-adjusted match whose handler looks up another slash-adjusted request), with an optional tree replacement before each request, x EVERY answer of the context pool at every Pool.Get (any of the pooled contexts or a fresh one: data choice points of the controlled scheduler); every request carries a unique token in every observable field and every Context getter is checked inside every handler; stashed clones are re-read after every later request; " +
 			"plus two-thread schedules; distinct_nontrivial = distinct (sequence, outcome) classes",
 		Assumptions: []string{
 			"sync.Pool may return any previously Put object or a fresh one: the shim makes that choice explicit and the explorer enumerates it",
@@ -656,11 +663,11 @@ func init() {
 				if c.Quick() {
 					seqs = sequences(2, kinds, true)
 					// length 3 over the kinds that leave most state behind
-					seqs = dedupSeqs(append(seqs, sequences(3, []int{kIgnoreSlash, kNotFound, kLookupClone, kCloneStash, kDirect, kHandlerLookup, kIgnoreCloneStash, kHostIgnoreLookup, kInfix2Ignore, kHostInfixIgnore}, false)...))
+					seqs = dedupSeqs(append(seqs, sequences(3, []int{kIgnoreSlash, kNotFound, kLookupClone, kCloneStash, kDirect, kHandlerLookup, kIgnoreCloneStash, kHostIgnoreLookup, kInfix2Ignore, kHostInfixIgnore, kHostFork405}, false)...))
 				} else {
 					seqs = sequences(maxLen, kinds, true)
 				}
-				r.Bounds["sequences"] = fmt.Sprintf("%d sequences (18 kinds; quick: all of length<=2 with tree replacement + length 3 over 10 kinds; thorough: all of length<=3 with tree replacement), unbounded exploration of pool answers", len(seqs))
+				r.Bounds["sequences"] = fmt.Sprintf("%d sequences (19 kinds; quick: all of length<=2 with tree replacement + length 3 over 11 kinds; thorough: all of length<=3 with tree replacement), unbounded exploration of pool answers", len(seqs))
 				for i, s := range seqs {
 					if !c.Mine(i) {
 						continue
